@@ -193,6 +193,8 @@ class State:
             except ImportError:
                 w_ = None
             lit = w_.const_literal(t) if w_ is not None else None
+            if lit is not None and w_.eng.is_rebound(*t[1][6:].rsplit(".", 1)):
+                lit = None
             if lit is not None and lit != t:
                 ts = structural_type(lit)
                 if ts is None and is_call(lit, ("builtin:frozenset", "builtin:set", "builtin:dict", "builtin:list", "builtin:tuple")):
